@@ -322,6 +322,29 @@ func (e *Exec) scenarioShape(path string, t types.Type, a string) ([]altFn, bool
 			s.CellTypes[r.Cell] = p.Elem()
 			return r
 		}, a)
+	case "constdecls", "constdecl": // constdecls(A,B): a []codegen.Decl of *codegen.Constant{Name, Value: Name}; constdecl(A): one such Decl (a pointer of its own)
+		return one(func(s *State) Val {
+			ct := w.namedType("pkg/codegen", "Constant")
+			mk := func(nm string) Val {
+				r := s.alloc(mkStruct(ct, map[string]Val{"Name": lit(nm), "Value": Iface{Dyn: types.Typ[types.String], V: lit(nm)}}))
+				delete(s.Fresh, r.Cell)
+				s.CellTypes[r.Cell] = ct
+				return Iface{Dyn: types.NewPointer(ct), V: r}
+			}
+			if name == "constdecl" {
+				return mk(args[0])
+			}
+			var els []Val
+			for _, a := range args {
+				els = append(els, mk(a))
+			}
+			if len(els) == 0 {
+				return SliceV{}
+			}
+			r := s.alloc(&Agg{Elems: els})
+			delete(s.Fresh, r.Cell)
+			return SliceV{Arr: r, Len_: len(els), Cap: len(els)}
+		}, a)
 	case "imports": // imports(path:name;path:name): a []codegen.Import
 		return one(func(s *State) Val {
 			impT := w.namedType("pkg/codegen", "Import")
